@@ -273,6 +273,9 @@ func (s *Server) cmdDELHOOKop(name string, channel bool) (updated bool) {
 		return false
 	}
 	hook.Close()
+	// what is still queued for it dies with it: it must not be sent later to
+	// another hook that happens to get the same name
+	hook.purgeQueue()
 	// remove hook from maps
 	s.hooks.Delete(hook)
 	s.hooksOut.Delete(hook)
@@ -623,6 +626,28 @@ func (h *Hook) Signal() {
 	h.cond.L.Unlock()
 }
 
+// purgeQueue removes the notifications still queued for a deleted hook.
+func (h *Hook) purgeQueue() {
+	if h.channel || h.db == nil {
+		return
+	}
+	queuedName := gjson.Parse(jsonString(h.Name)).String()
+	h.db.Update(func(tx *buntdb.Tx) error {
+		var keys []string
+		tx.AscendGreaterOrEqual("hooks", h.query, func(key, val string) bool {
+			if strings.HasPrefix(key, hookLogPrefix) &&
+				queuedName == gjson.Get(val, "hook").String() {
+				keys = append(keys, key)
+			}
+			return true
+		})
+		for _, key := range keys {
+			tx.Delete(key)
+		}
+		return nil
+	})
+}
+
 // the manager is a forever loop that calls proc whenever there's a signal.
 // it ends when the "closed" flag is set.
 func (h *Hook) manager() {
@@ -729,6 +754,13 @@ func (h *Hook) proc() (ok bool) {
 			keys = keys[i:]
 			vals = vals[i:]
 			ttls = ttls[i:]
+			h.cond.L.Lock()
+			closed := h.closed
+			h.cond.L.Unlock()
+			if closed {
+				// deleted meanwhile: nothing goes back into the queue
+				return true
+			}
 			h.db.Update(func(tx *buntdb.Tx) error {
 				for i, key := range keys {
 					val := vals[i]
